@@ -148,18 +148,158 @@ Proof.
     + right. exists (t :: before), pre, post, after. rewrite H2, H1. split; reflexivity.
 Qed.
 
+(* ---- unique occurrences ---------------------------------------------------- *)
+
+(* sub occurs at no position of s *)
+Fixpoint occ_free (sub s : str) : bool :=
+  negb (has_prefix sub s) && match s with [] => true | _ :: t => occ_free sub t end.
+(* sub occurs at no position of pre ++ x that lies inside pre *)
+Fixpoint pre_free (sub pre x : str) : bool :=
+  match pre with
+  | [] => true
+  | c :: p => negb (has_prefix sub (c :: p ++ x)) && pre_free sub p x
+  end.
+
+Lemma occ_free_count sub t : occ_free sub t = true -> forall k, count_from t sub k = 0.
+Proof.
+  induction t as [|c t IH]; intros Hf k; [reflexivity|].
+  cbn [occ_free] in Hf. apply andb_true_iff in Hf as [H1 H2]. apply negb_true_iff in H1.
+  cbn [count_from]. destruct k; [rewrite H1|]; apply IH; exact H2.
+Qed.
+
+Lemma occ_free_last sub t : occ_free sub t = true -> forall i, last_index_from t sub i = None.
+Proof.
+  induction t as [|c t IH]; intros Hf i; cbn [occ_free] in Hf;
+    apply andb_true_iff in Hf as [H1 H2]; apply negb_true_iff in H1; cbn [last_index_from].
+  - rewrite H1. reflexivity.
+  - rewrite (IH H2), H1. reflexivity.
+Qed.
+
+Lemma index_pre sub pre x : pre_free sub pre x = true -> has_prefix sub x = true ->
+  forall i, index_from (pre ++ x) sub i = Some (i + length pre)%nat.
+Proof.
+  induction pre as [|c p IH]; intros Hp Hx i.
+  - simpl. rewrite Nat.add_0_r. destruct x; cbn [index_from]; rewrite Hx; reflexivity.
+  - cbn [pre_free] in Hp. apply andb_true_iff in Hp as [H1 H2]. apply negb_true_iff in H1.
+    cbn [app index_from]. cbn [app] in H1. rewrite H1, (IH H2 Hx). f_equal. simpl. lia.
+Qed.
+
+Lemma last_pre sub pre c x' : pre_free sub pre (c :: x') = true -> has_prefix sub (c :: x') = true ->
+  occ_free sub x' = true ->
+  forall i, last_index_from (pre ++ c :: x') sub i = Some (i + length pre)%nat.
+Proof.
+  induction pre as [|a p IH]; intros Hp Hx Hf i.
+  - simpl. rewrite Nat.add_0_r. cbn [last_index_from]. rewrite (occ_free_last _ _ Hf), Hx. reflexivity.
+  - cbn [pre_free] in Hp. apply andb_true_iff in Hp as [_ H2].
+    cbn [app last_index_from]. rewrite (IH H2 Hx Hf). f_equal. simpl. lia.
+Qed.
+
+Lemma count_pre sub pre c x' : pre_free sub pre (c :: x') = true -> has_prefix sub (c :: x') = true ->
+  occ_free sub x' = true -> count_from (pre ++ c :: x') sub 0 = 1.
+Proof.
+  induction pre as [|a p IH]; intros Hp Hx Hf.
+  - cbn [app count_from]. rewrite Hx, (occ_free_count _ _ Hf). reflexivity.
+  - cbn [pre_free] in Hp. apply andb_true_iff in Hp as [H1 H2]. apply negb_true_iff in H1.
+    cbn [app count_from]. cbn [app] in H1. rewrite H1. apply IH; assumption.
+Qed.
+
+Lemma has_prefix_app sub post : has_prefix sub (sub ++ post) = true.
+Proof. apply has_prefix_true. eauto. Qed.
+
+(* Replace with a text that occurs exactly once, at the end of pre *)
+Lemma autofix_replace_unique pre b sub' post to :
+  pre_free (b :: sub') pre ((b :: sub') ++ post) = true ->
+  occ_free (b :: sub') (sub' ++ post) = true ->
+  autofix_replace [pre ++ (b :: sub') ++ post] (b :: sub') to = [pre ++ to ++ post].
+Proof.
+  intros Hp Hf.
+  assert (Hx : has_prefix (b :: sub') (b :: sub' ++ post) = true) by apply (has_prefix_app (b :: sub') post).
+  change ((b :: sub') ++ post) with (b :: sub' ++ post) in *.
+  unfold autofix_replace. cbn [fold_left]. rewrite N.add_0_l. cbn [str_count].
+  rewrite (count_pre _ _ _ _ Hp Hx Hf). change (1 =? 1) with true. cbn iota. cbn [replace_in_texts].
+  unfold replace_once, str_index, str_last_index.
+  rewrite (index_pre _ _ _ Hp Hx), (last_pre _ _ _ _ Hp Hx Hf). cbn [Nat.add]. rewrite Nat.eqb_refl.
+  f_equal. rewrite firstn_app_exact. f_equal. f_equal.
+  change (b :: sub' ++ post) with ((b :: sub') ++ post). rewrite app_assoc, <- app_length.
+  apply skipn_app_exact.
+Qed.
+
+(* sufficient conditions on the bytes *)
+Lemma has_prefix_head_ne h rest c s : (c =? h) = false -> has_prefix (h :: rest) (c :: s) = false.
+Proof. intros Hc. unfold has_prefix. cbn [strip_prefix]. rewrite N.eqb_sym, Hc. reflexivity. Qed.
+
+Lemma pre_free_head h rest pre x :
+  forallb (fun c => negb (c =? h)) pre = true -> pre_free (h :: rest) pre x = true.
+Proof.
+  induction pre as [|c p IH]; intros Hf; [reflexivity|]. cbn [forallb] in Hf.
+  apply andb_true_iff in Hf as [H1 H2]. apply negb_true_iff in H1.
+  cbn [pre_free]. rewrite (has_prefix_head_ne _ _ _ _ H1), (IH H2). reflexivity.
+Qed.
+
+(* no byte h is immediately followed by a byte g *)
+Fixpoint no_pair (h g : N) (s : str) : bool :=
+  match s with
+  | [] => true
+  | c :: t => negb ((c =? h) && head_is (fun c' => c' =? g) t) && no_pair h g t
+  end.
+
+Lemma occ_free_pair h g rest s : no_pair h g s = true -> occ_free (h :: g :: rest) s = true.
+Proof.
+  induction s as [|c t IH]; intros Hn; [reflexivity|].
+  cbn [no_pair] in Hn. apply andb_true_iff in Hn as [H1 H2]. cbn [occ_free]. rewrite (IH H2), andb_true_r.
+  apply negb_true_iff. apply negb_true_iff in H1. unfold has_prefix. cbn [strip_prefix].
+  rewrite (N.eqb_sym h c). destruct (c =? h); [|reflexivity]. simpl in H1.
+  destruct t as [|c' t']; [reflexivity|]. cbn [head_is] in H1. cbn [strip_prefix].
+  rewrite (N.eqb_sym g c'), H1. reflexivity.
+Qed.
+
+Lemma no_pair_free h g s : forallb (fun c => negb (c =? g)) s = true -> no_pair h g s = true.
+Proof.
+  induction s as [|c t IH]; intros Hf; [reflexivity|]. cbn [forallb] in Hf.
+  apply andb_true_iff in Hf as [_ H2]. cbn [no_pair]. rewrite (IH H2), andb_true_r.
+  destruct t as [|c' t']; [rewrite andb_false_r; reflexivity|]. cbn [head_is].
+  cbn [forallb] in H2. apply andb_true_iff in H2 as [H3 _]. apply negb_true_iff in H3.
+  rewrite H3, andb_false_r. reflexivity.
+Qed.
+
+(* ---- the fix of checkPatchSha1 ------------------------------------------------ *)
+
+(* SHA1 (name) = hash LF : a patch entry as the distinfo grammar admits it
+   (the line regex in distinfo.go): no closing parenthesis in the name, no blank
+   in the hash *)
+Definition sha1_open : str := [83; 72; 65; 49; 32; 40].
+Definition entry_line (name hash : str) : str := (sha1_open ++ name) ++ (entry_sep ++ hash) ++ [10].
+Definition name_ok (name : str) : bool := forallb (fun c => negb (c =? 41)) name.
+Definition hash_ok (hash : str) : bool := forallb (fun c => negb (c =? 32)) hash.
+
+Lemma replace_after_entry name d h :
+  name_ok name = true -> hash_ok d = true ->
+  autofix_replace_after entry_sep [entry_line name d] d h = [entry_line name h].
+Proof.
+  intros Hn Hd. unfold autofix_replace_after, entry_line, entry_sep.
+  change ([41; 32; 61; 32] ++ d) with (41 :: [32; 61; 32] ++ d).
+  change ([41; 32; 61; 32] ++ h) with (41 :: [32; 61; 32] ++ h).
+  apply autofix_replace_unique.
+  - apply pre_free_head. unfold sha1_open. rewrite forallb_app. unfold name_ok in Hn. rewrite Hn. reflexivity.
+  - change (([32; 61; 32] ++ d) ++ [10]) with (32 :: 61 :: 32 :: d ++ [10]).
+    apply (occ_free_pair 41 32 ([61; 32] ++ d)).
+    cbn [no_pair head_is]. simpl (32 =? 41). simpl (61 =? 41). cbn [andb negb].
+    apply no_pair_free. rewrite forallb_app. unfold hash_ok in Hd. rewrite Hd. reflexivity.
+Qed.
+
 Section Fix.
 Variable H : str -> str.
 
-(* what the fix writes is the makepatchsum digest, and that digest is accepted *)
+(* what the fix writes is the makepatchsum digest, and that digest is accepted;
+   ReplaceAfter changes nothing else *)
 Theorem fix_then_accept s d h :
   check_patch_sha1 H (Some s) d = Differs d h ->
   h = makepatchsum H s /\ check_patch_sha1 H (Some s) h = Silent /\
   forall texts,
     fix_distinfo_line texts (Differs d h) = texts \/
     exists before pre post after,
-      texts = before ++ (pre ++ d ++ post) :: after /\
-      fix_distinfo_line texts (Differs d h) = before ++ (pre ++ h ++ post) :: after.
+      texts = before ++ (pre ++ (entry_sep ++ d) ++ post) :: after /\
+      fix_distinfo_line texts (Differs d h) = before ++ (pre ++ (entry_sep ++ h) ++ post) :: after.
 Proof.
   rewrite check_cases. destruct (str_eqb d (makepatchsum H s)); [discriminate|].
   intros Hd; inversion Hd; subst. split; [reflexivity|]. split.
@@ -167,39 +307,19 @@ Proof.
   - intros texts. apply autofix_replace_spec.
 Qed.
 
-(* the Replace precondition, spelled out with the Go library functions: the stale
-   hash is counted once in the line and its first occurrence is its last *)
-Theorem fix_then_accept_partial s d h t i :
+(* for every entry line of the distinfo grammar the fix writes exactly the digest,
+   and the entry is accepted afterwards -- no guard about further occurrences of the
+   stale hash (e.g. in the file name) is needed any more *)
+Theorem fix_always s d h name :
+  name_ok name = true -> hash_ok d = true ->
   check_patch_sha1 H (Some s) d = Differs d h ->
-  str_count t d = 1 -> str_index t d = Some i -> str_last_index t d = Some i ->
-  exists pre post, t = pre ++ d ++ post /\ length pre = i /\
-    fix_distinfo_line [t] (Differs d h) = [pre ++ h ++ post] /\
-    check_patch_sha1 H (Some s) h = Silent.
+  fix_distinfo_line [entry_line name d] (Differs d h) = [entry_line name h] /\
+  h = makepatchsum H s /\ check_patch_sha1 H (Some s) h = Silent.
 Proof.
-  intros Hc Hn Hi Hl. destruct (fix_then_accept _ _ _ Hc) as [_ [Hs _]].
-  destruct (index_from_spec _ _ _ _ Hi) as [k [Hk [Hle Ht]]]. simpl in Hk. subst k.
-  exists (firstn i t), (skipn (i + length d) t). split; [exact Ht|]. split.
-  - apply firstn_length_le. lia.
-  - split; [|exact Hs]. cbn [fix_distinfo_line]. unfold autofix_replace. cbn [fold_left].
-    rewrite N.add_0_l, Hn. cbn [N.eqb Pos.eqb replace_in_texts]. unfold replace_once.
-    rewrite Hi, Hl, Nat.eqb_refl. reflexivity.
+  intros Hn Hd Hc. destruct (fix_then_accept _ _ _ Hc) as [Hh [Hs _]].
+  split; [|split; assumption]. cbn [fix_distinfo_line]. apply replace_after_entry; assumption.
 Qed.
 End Fix.
-
-(* the unguarded claim "the fix always writes the digest into the line" is false:
-   when the stale hash occurs a second time in the line (e.g. in the file name)
-   Replace refuses and the line stays as it is *)
-Definition fix_always_full : Prop :=
-  forall (H : str -> str) s d h pre post,
-    check_patch_sha1 H (Some s) d = Differs d h ->
-    fix_distinfo_line [pre ++ d ++ post] (Differs d h) = [pre ++ h ++ post].
-
-Theorem fix_always_refuted : ~ fix_always_full.
-Proof.
-  intros F. specialize (F (fun _ => [49]) [] [48] [49] [48] []).
-  assert (C : check_patch_sha1 (fun _ => [49]) (Some []) [48] = Differs [48] [49]) by (vm_compute; reflexivity).
-  specialize (F C). vm_compute in F. discriminate.
-Qed.
 
 (* ---- Package.AutofixDistinfo ---------------------------------------------- *)
 
@@ -207,27 +327,23 @@ Lemma autofix_replace_refuses texts from to :
   fold_left (fun n t => n + str_count t from) texts 0 <> 1 -> autofix_replace texts from to = texts.
 Proof. unfold autofix_replace. intros Hn. apply N.eqb_neq in Hn. rewrite Hn. reflexivity. Qed.
 
-(* a line in which the old hash is not counted exactly once stays as it is *)
-Theorem autofix_distinfo_partial lines old new j texts :
-  nth_error lines j = Some texts ->
-  fold_left (fun n t => n + str_count t old) texts 0 <> 1 ->
+(* the entry of a patch whose own digest is not the new one is never touched: in
+   particular a correct entry of another patch with the same old digest stays correct *)
+Theorem autofix_distinfo_keeps lines old new j texts other :
+  nth_error lines j = Some (texts, Some other) -> other <> new ->
   nth_error (autofix_distinfo lines old new) j = Some texts.
 Proof.
   intros Hj Hn. unfold autofix_distinfo. rewrite nth_error_map, Hj. simpl.
-  rewrite (autofix_replace_refuses _ _ _ Hn). reflexivity.
+  destruct (str_eqb other new) eqn:E; [apply str_eqb_spec in E; contradiction|reflexivity].
 Qed.
 
-(* "AutofixDistinfo only rewrites the entry of the patch that was fixed (line i)" is
-   false: every line that records the same hash is rewritten *)
-Definition autofix_distinfo_full : Prop :=
-  forall lines old new (i j : nat) texts, j <> i ->
-    nth_error lines j = Some texts -> nth_error (autofix_distinfo lines old new) j = Some texts.
-
-Definition twin_aa : str := [83;72;65;49;32;40;112;97;116;99;104;45;97;97;41;32;61;32;48;10]. (* SHA1 (patch-aa) = 0 *)
-Definition twin_ab : str := [83;72;65;49;32;40;112;97;116;99;104;45;97;98;41;32;61;32;48;10]. (* SHA1 (patch-ab) = 0 *)
-
-Theorem autofix_distinfo_refuted : ~ autofix_distinfo_full.
+(* any line in which the old hash is not counted exactly once is left alone *)
+Theorem autofix_distinfo_partial lines old new j l :
+  nth_error lines j = Some l ->
+  fold_left (fun n t => n + str_count t old) (fst l) 0 <> 1 ->
+  nth_error (autofix_distinfo lines old new) j = Some (fst l).
 Proof.
-  intros F. specialize (F [[twin_aa]; [twin_ab]] [48] [49] 0%nat 1%nat [twin_ab] ltac:(discriminate) eq_refl).
-  vm_compute in F. discriminate.
+  intros Hj Hn. unfold autofix_distinfo. rewrite nth_error_map, Hj. simpl.
+  rewrite (autofix_replace_refuses _ _ _ Hn). destruct (snd l) as [o|]; [destruct (negb _)|]; reflexivity.
 Qed.
+
